@@ -220,7 +220,9 @@ type ProcSpec struct {
 	Variant string            // driver variant: "", "trimpath", "deep", "deep-trimpath"
 }
 
-func (p *ProcSpec) ciOn() bool { return p.CI == "CI" || p.CI == "GITHUB_ACTIONS" || p.CI == "BUILD_NUMBER" }
+func (p *ProcSpec) ciOn() bool {
+	return p.CI == "CI" || p.CI == "GITHUB_ACTIONS" || p.CI == "BUILD_NUMBER"
+}
 
 func (p *ProcSpec) updvarClass() string {
 	if p.UpdVar == nil {
